@@ -1,0 +1,68 @@
+//go:build verif
+
+package cluster
+
+import (
+	"sync/atomic"
+
+	"github.com/semafind/semadb/models"
+)
+
+// Verification hooks, only compiled with the verif build tag.
+
+// VerifPauseFn, when set, is called at named pause points inside the shard
+// manager (idle unload routine and collection deletion loop). The harness
+// blocks inside the function to force a particular interleaving.
+var VerifPauseFn atomic.Pointer[func(point string, key string)]
+
+// VerifFaultFn, when set, is consulted at named fault points (start of the
+// shard chunk receive handler). A non-nil error is returned by the call site.
+var VerifFaultFn atomic.Pointer[func(point string, index int) error]
+
+func verifPause(point string, key string) {
+	if fn := VerifPauseFn.Load(); fn != nil {
+		(*fn)(point, key)
+	}
+}
+
+func verifFault(point string, index int) error {
+	if fn := VerifFaultFn.Load(); fn != nil {
+		return (*fn)(point, index)
+	}
+	return nil
+}
+
+// VerifShardInfo mirrors the unexported shardInfo for the harness.
+type VerifShardInfo struct {
+	Id         string
+	Size       int64
+	PointCount int64
+}
+
+// VerifDistributePoints exposes distributePoints.
+func VerifDistributePoints(shards []VerifShardInfo, points []models.Point, maxShardSize, maxShardPointCount int64, createShardFn func() (string, error)) (map[string][2]int, error) {
+	inner := make([]shardInfo, len(shards))
+	for i, s := range shards {
+		inner[i] = shardInfo{Id: s.Id, Size: s.Size, PointCount: s.PointCount}
+	}
+	return distributePoints(inner, points, maxShardSize, maxShardPointCount, createShardFn)
+}
+
+// VerifShardManager exposes the node's shard manager.
+func (c *ClusterNode) VerifShardManager() *ShardManager {
+	return c.shardManager
+}
+
+// VerifLoadedShardDirs lists the shard directories currently in the shard store.
+func (sm *ShardManager) VerifLoadedShardDirs() []string {
+	sm.shardLock.Lock()
+	defer sm.shardLock.Unlock()
+	res := make([]string, 0, len(sm.shardStore))
+	for k := range sm.shardStore {
+		res = append(res, k)
+	}
+	return res
+}
+
+// VerifCurateFailedPoints exposes curateFailedPoints.
+var VerifCurateFailedPoints = curateFailedPoints
